@@ -501,10 +501,13 @@ def _with_pool(fn):
             ev = ctx.Event()
             pool = ctx.Pool(nproc, initializer=_init_worker, initargs=(ev,))
             pool._verif_stop = ev
-        return fn(pool)
-    finally:
+        r = fn(pool)
         if pool:
             pool.close()
+        return r
+    finally:
+        if pool:
+            pool.terminate()     # after an exception: do not run the chunks still queued
             pool.join()
         tempfile.tempdir = old_tmp
         shutil.rmtree(root, ignore_errors=True)
